@@ -16,7 +16,7 @@ REPO = os.environ.get("VERIF_REPO_DIR", "/repo")
 SAN = "-O1 -g -fno-omit-frame-pointer -fsanitize=address,undefined -fno-sanitize-recover=undefined"
 FUZZ = SAN + " -fsanitize=fuzzer-no-link"
 TSAN = "-O1 -g -fno-omit-frame-pointer -fsanitize=thread"
-PLAIN = "-O1 -g -fno-omit-frame-pointer"
+PLAIN = "-O1 -gdwarf-4 -fno-omit-frame-pointer"
 
 ADAPT = os.path.join(VERIF, "adapters")
 
@@ -37,6 +37,7 @@ VARIANTS = {
     "plain":  dict(cflags=PLAIN),
     "pextra": dict(cflags=PLAIN, extra_cflags="-DEAV_EXTRA"),
     "tsan":   dict(cflags=TSAN),
+    "pfault": dict(cflags=PLAIN, redefine=[("idn2_to_ascii_8z", "vfault_to_ascii_8z")]),
     "fault":  dict(cflags=SAN, redefine=[("idn2_to_ascii_8z", "vfault_to_ascii_8z")]),
     "ffuzz":  dict(cflags=FUZZ, redefine=[("idn2_to_ascii_8z", "vfault_to_ascii_8z")]),
     "b_idn2": dict(cflags=SAN, makevars={"FORCE_IDN": "idn2"}),
